@@ -263,19 +263,27 @@ func (u *uploader) createReport(start time.Time, expiryDate string, countFiles [
 	}
 	// write the uploadable file
 	var errUpload, errLocal error
+	var wroteUpload, wroteLocal bool
 	if uploadOK {
-		_, errUpload = exclusiveWrite(uploadFileName, uploadContents)
+		wroteUpload, errUpload = exclusiveWrite(uploadFileName, uploadContents)
 	}
 	// write the local file
-	_, errLocal = exclusiveWrite(localFileName, localContents)
+	wroteLocal, errLocal = exclusiveWrite(localFileName, localContents)
 	/*  Wrote the files */
 
-	// even though these errors won't occur, what should happen
-	// if errUpload == nil and it is ok to upload, and errLocal != nil?
+	// If one of the two files could not be written, take back the other one
+	// (if this call created it): either file alone would make later runs
+	// consider the week reported and delete its count files.
 	if errLocal != nil {
+		if wroteUpload {
+			os.Remove(uploadFileName)
+		}
 		return "", fmt.Errorf("failed to write local file %s (%v)", localFileName, errLocal)
 	}
 	if errUpload != nil {
+		if wroteLocal {
+			os.Remove(localFileName)
+		}
 		return "", fmt.Errorf("failed to write upload file %s (%v)", uploadFileName, errUpload)
 	}
 	u.logger.Printf("Created %s, deleting %d count files", filepath.Base(uploadFileName), len(countFiles))
@@ -303,6 +311,11 @@ func exclusiveWrite(filename string, content []byte) (_ bool, rerr error) {
 	defer func() {
 		if err := f.Close(); err != nil && rerr == nil {
 			rerr = err
+		}
+		if rerr != nil {
+			// Do not leave a partial file behind: its mere existence
+			// would make later runs take the report for written.
+			os.Remove(filename)
 		}
 	}()
 	if _, err := f.Write(content); err != nil {
